@@ -30,7 +30,7 @@ CHECKS = {
          'covered twice, |winding| <= 1; area identities among or/and/xor/not; chained operations feed results with slits back in',
          'points within 2 grid units of an operand edge are not judged; operands sampled from lattice polygon families', '7/C05'),
  'C06': ('exploration', 'reference-model monitor: the spec flattened by hand (composed 2x3 matrices and repetition vectors) vs every hierarchy query, under ASan+UBSan',
-         '13 queries per library on cells and references (repetitions applied or attached, depth limits, tag filters, paths, labels), deep copy + mutate + free, '
+         'up to 15 queries per library on cells and references (repetitions applied or attached, depth limits, tag filters on polygons, labels and paths, paths, labels), deep copy + mutate + free, '
          'then flatten and re-query; polygon sets matched vertex by vertex, path results as guarded regions',
          'leaf path outlines observed from to_polygons of the untransformed leaf; all paths scale their width; at most 300 flattened instances per library', '7/C06'),
  'C08': ('exploration', 'reference-semantics monitor: analytic sections (segment, arc, Bezier, parametric families) and width/offset laws rebuilt from the call arguments; queries, spine, element centres and winding-number probes of the outline compared with them; under ASan+UBSan',
@@ -44,7 +44,7 @@ CHECKS = {
          'boxes must equal the extrema of all flattened geometry points, hulls must contain every point and have only geometry points as corners, cached == uncached',
          'leaf path outlines observed from to_polygons; libraries sampled with degenerate leaves, explicit offset lists and rotated references forced in', '7/C09'),
  'C10': ('exploration', 'reference-model monitor: hand-composed 2x3 matrices vs element fields and outlines after transform sequences, under ASan+UBSan',
-         'vertices/spines equal the matrix image; width/offset/extension scaling rules; label/reference fields must reproduce the composed placement; '
+         'vertices/spines equal the matrix image; width/offset/extension scaling rules; label/reference fields must reproduce the composed placement; repetitions transformed on their own (every kind, sequences) map each vector by the linear part; '
          'outline(T(path)) vs T(outline(path)) by guarded region sampling',
          'sampled transform sequences; outline commutation only where widths follow the scaling', '7/C10'),
  'C11': ('exploration', 'reference-model monitor: the checker\'s own enumeration of the vector set vs get_count/get_offsets/get_extrema/apply_repetition/transform, under ASan+UBSan',
@@ -67,20 +67,21 @@ CHECKS = {
  'C07': ('exploration', 'reference-geometry monitor: element centre line rebuilt from the observed spine and per-point width/offset entries; winding-number probes of the outline against distance to that centre line; per-call bookkeeping assertions; under ASan+UBSan',
          'after every construction call: one width/offset entry per spine point per element, taper ends exactly at the requested value and runs monotonically; '
          'outline: points within 0.6 half widths of the centre line inside, points beyond join reach + 3 tolerances of the cap-extended centre line outside, '
-         'end planes for flush/round/half-width/extended ends, circular bends (arc mid point in, sharp corner out), duplicate removal keeps elements aligned',
+         'end planes for flush/round/half-width/extended ends, circular bends (arc mid point in, sharp corner out, consecutive bends sharing a short segment), duplicate removal keeps elements aligned; '
+         'simple paths: the GDSII and OASIS PATH records read back from the bytes with the independent decoders (centre line within tolerance + 2 grid units of the oracle centre line, width, end style, extensions)',
          'oracle in py/c07.py; elements whose centre line folds (offset or half width eats a whole segment at a corner) or approaches itself are outside the stated domain and skipped, counted in evidence; '
          'PATH-record equivalence of simple paths is decided by C01/C03', '7/C07'),
  'C15': ('exploration', 'reference-semantics monitor: analytic curve evaluation with tracked curve state (end point, last control, end tangent) vs the vertices appended by every call, under ASan+UBSan',
          'per section: finite vertices, requested end point, every vertex located on the exact section with non-decreasing parameter, deviation <= 5 tolerances for arcs and '
-         'non-doubling-back polynomial sections, fitted circle/tangent for turns, pass-through for interpolations; primitives against their exact outlines',
+         'non-doubling-back polynomial sections, fitted circle/tangent for turns, pass-through for interpolations; primitives against their exact outlines (rings: outer and inner boundary, inner ellipse with its own aspect ratio)',
          'analytic oracle in py/c15.py; smooth/turn only generated after sections that define the needed state; interpolation constraints never exactly opposite to a chord', '7/C15'),
  'C16': ('exploration', 'history + executable model: abstract cell graph updated per documented operation semantics, compared with the real graph after every step, under ASan+UBSan',
          'after each of 5-24 edit operations the type and target identity of every reference, library membership, top-level set, dependency sets and tags in use '
-         'must equal the model; content compared between start and end',
+         'must equal the model (tag maps of 1-20 entries, so that the table grows while it is filled); content compared between start and end',
          'model in py/c16.py; histories sampled; graphs kept acyclic; names kept unique', '7/C16'),
  'C17': ('exploration', 'differential monitor: partial readers vs full reader vs independent decoder; byte-level comparison of re-emitted raw cells and timestamp rewrites',
          'gds_info/gds_units/gds_timestamp, filtered and rescaled loads, raw-cell copies and timestamp rewrites are compared with the full load '
-         'and with the independent decoder on files from both writers',
+         'and with the independent decoder on files from both writers; paths loaded with a target unit keep the same physical tolerance',
          'trusts py/gds_codec.py; filter sets, units and cell subsets are sampled', '7/C17'),
  'C18': ('fault_enumeration', 'crash-point (prefix) enumeration in forked children under ASan+UBSan with descriptor-count and result monitors',
          'every prefix length of every generated file (complete per file for files <= 4 KiB) x every reader named by the property; '
